@@ -756,7 +756,7 @@ def request_rule(ctx, prog, rid="C03.REQUEST"):
         sites += len(ths)
         ctx.functions_analysed.add(bid)
         for s_ in panics.sources(b):
-            if s_["kind"] == "unwrap" and s_["what"].endswith("<-Request::to_handle"):
+            if s_["kind"] == "unwrap" and s_["what"].endswith("<-Request::to_handle") and not panics.discharged(b, s_):   # (an unwrap under a dominating is_some() test cannot fire)
                 ctx.report(r, "%s|%s" % (mirq.short_fn(bid), s_["what"]), "%s resolves a request with to_handle() and then `%s`s the answer: asking with an id that nothing carries (any string) panics instead of answering None / false / an error" % (bid, s_["what"].split("<-")[0]), b.file, s_.get("line"))
     r.hit("to_handle-call-sites", sample={"call_sites": sites})
     ctx.floor(r, sites, 12, "call sites of Request::to_handle (16 counted on the pinned tree)")
